@@ -32,6 +32,7 @@ static const char *PROG_B = "mb: module\nexport fb\nimport fa\npa: proto i64, i6
 static const char *CSRC = "static int sq (int x) { return x * x; }\nstruct P { int a; double d; };\n"
   /* void pointers from alloca and label addresses, conditional with a void * arm, qualifiers, bit-fields, a string, varargs-free libc calls: more of c2mir's type machinery */
   "struct B { unsigned f:3; int g:5; const char *s; };\nstatic int aux (int n) { char *q = __builtin_alloca (n + 8); const char *cs = \"xyz\"; void *lab = &&L; q[0] = 42; const void *v = n ? (const void *) cs : (void *) q;\n"
+  "  const char *w = n ? __builtin_alloca (4) : cs; volatile int vi = 0; const volatile int *pv = n ? __builtin_alloca (8) : &vi; const void *lv = n ? &&L : (const void *) cs; (void) w; (void) pv; (void) lv;\n"
   "  struct B b = {5, -3, cs}; goto *lab; L: return q[0] + b.f + b.g + (v != 0) + (int) sizeof (void *) + b.s[1]; }\n"
   "int work (int n) { struct P p = {n, 0.5}; int s = 0; for (int i = 0; i < n; i++) s += sq (i) + (int) (p.d * i); switch (n & 3) { case 0: s++; break; case 1: s += 2; break; default: s -= 1; } return s + p.a + aux (n); }\n";
 typedef struct { const char *s; size_t pos; } sreader;
@@ -91,10 +92,20 @@ static uint64_t workload (int w, int64_t arg, MIR_alloc_t alloc, MIR_code_alloc_
 /* ================= mode watch: writes to the library's static memory ================= */
 #ifdef C18_WATCH
 typedef struct { uintptr_t lo, hi; } seg;
-static seg segs[8]; static int n_segs; static uintptr_t lib_base;
+static seg segs[8]; static int n_segs; static uintptr_t lib_base; static char lib_path[400];
+/* static (non-exported) symbols are resolved through nm on the shared object */
+typedef struct { uintptr_t a; char name[80]; } nsym; static nsym *NS; static size_t n_ns;
+static void load_syms (void) {
+  char cmd[500]; snprintf (cmd, sizeof cmd, "nm -n --defined-only '%s' 2>/dev/null", lib_path); FILE *f = popen (cmd, "r"); if (!f) return;
+  char line[400]; size_t cap = 0;
+  while (fgets (line, sizeof line, f)) { unsigned long a; char t; char nm[200]; if (sscanf (line, "%lx %c %199s", &a, &t, nm) != 3) continue;
+    if (n_ns == cap) { cap = cap ? cap * 2 : 4096; NS = realloc (NS, cap * sizeof (nsym)); } NS[n_ns].a = a; snprintf (NS[n_ns].name, sizeof NS[n_ns].name, "%s", nm); n_ns++; }
+  pclose (f);
+}
+static const char *sym_of (uintptr_t off, unsigned long *delta) { const char *r = "?"; *delta = 0; for (size_t i = 0; i < n_ns && NS[i].a <= off; i++) { r = NS[i].name; *delta = off - NS[i].a; } return r; }
 static int phdr_cb (struct dl_phdr_info *info, size_t size, void *data) {
   if (!info->dlpi_name || !strstr (info->dlpi_name, "libmirwatch")) return 0;
-  lib_base = info->dlpi_addr;
+  lib_base = info->dlpi_addr; snprintf (lib_path, sizeof lib_path, "%s", info->dlpi_name);
   for (int i = 0; i < info->dlpi_phnum; i++) if (info->dlpi_phdr[i].p_type == PT_LOAD && (info->dlpi_phdr[i].p_flags & PF_W) && n_segs < 8) {
     uintptr_t lo = info->dlpi_addr + info->dlpi_phdr[i].p_vaddr, hi = lo + info->dlpi_phdr[i].p_memsz;
     segs[n_segs].lo = lo & ~(uintptr_t) 4095; segs[n_segs].hi = (hi + 4095) & ~(uintptr_t) 4095; n_segs++; }
@@ -133,10 +144,10 @@ void drv_case (uint64_t idx) {
   MIR_finish (keep);
   protect (0);
   vp_count ("watched_static_bytes", bytes); vp_count ("workload_runs", 2 * NWORK); vp_count ("static_locations_written", n_w); vp_nontrivial ();
+  if (n_w) load_syms ();
   for (int i = 0; i < n_w; i++) {
-    Dl_info di; const char *sym = "?"; uintptr_t so = 0; if (dladdr ((void *) (lib_base + W[i].off), &di) && di.dli_sname) { sym = di.dli_sname; so = lib_base + W[i].off - (uintptr_t) di.dli_saddr; }
-    Dl_info dp; const char *fn = "?"; if (dladdr ((void *) W[i].pc, &dp) && dp.dli_sname) fn = dp.dli_sname;
-    vp_fail ("process-wide-mutable-state", "library static at offset %#lx (%s+%lu) is written by %s during workload %s", (unsigned long) W[i].off, sym, (unsigned long) so, fn, WNAME[W[i].work]);
+    unsigned long so = 0, fo = 0; const char *sym = sym_of (W[i].off, &so), *fn = sym_of (W[i].pc - lib_base, &fo);
+    vp_fail ("process-wide-mutable-state", "library static %s+%lu (offset %#lx) is written by %s+%lu during workload %s", sym, so, (unsigned long) W[i].off, fn, fo, WNAME[W[i].work]);
   }
   vp_sample ("%d workloads x 2 with a live second context; %llu bytes of library .data/.bss write-protected; %d distinct static locations written", NWORK, (unsigned long long) bytes, n_w);
 }
